@@ -38,7 +38,7 @@ int main(int argc, char** argv) {
         fprintf(out.ops, "ca nop fp-control-state-after-stream %s", name.c_str());
         fprintf(out.real, "nop");
         char buf[160];
-        snprintf(buf, sizeof buf, "FAIL C15 the library changed the floating-point control state (MXCSR control bits %#x -> %#x, rounding %d -> %d)", mxcsr0, mxcsr1, round0, fegetround());
+        snprintf(buf, sizeof buf, "FAIL the library changed the floating-point control state (MXCSR control bits %#x -> %#x, rounding %d -> %d)", mxcsr0, mxcsr1, round0, fegetround());
         out.endcase((mxcsr1 != mxcsr0 || fegetround() != round0) ? buf : "ok");
       }
       fclose(out.ops);
